@@ -43,6 +43,14 @@ func main() {
 		}
 		b, _ := json.Marshal(p.NamesSnapshot())
 		os.Stdout.Write(b)
+		// the anonymous-function descriptors go next to names.json (see eng/closures.go)
+		if len(os.Args) > 2 {
+			cb, _ := json.Marshal(p.ClosuresSnapshot())
+			if err := os.WriteFile(os.Args[2], cb, 0o644); err != nil {
+				fmt.Fprintln(os.Stderr, err)
+				os.Exit(1)
+			}
+		}
 	case "check":
 		os.Exit(check(repo, verif, os.Args[2], os.Args[3]))
 	case "mutants":
